@@ -32,8 +32,9 @@ ASSUMPTIONS = [
     "diagrams are finite with birth <= death (non-finite deaths are filtered before the anchored code: C01/C02 `inf_dropped`)",
     "bottleneck: on lattice/half/dyadic inputs numpy's |a-b|, maximum and 0.5*(d-b) are exact, so third entries are compared "
     "with == at Rat there and within 1e-9*scale elsewhere (scale = largest |coordinate|, not floored at 1); the aggregate max(rows) == distance is exact on every input",
-    "wasserstein: third entries within 1e-9*scale of sqrt(dx^2+dy^2) resp. (d-b)/sqrt2 (np.sqrt of the summed squared coordinate "
-    "differences since /repo fix 6c9bac1, rotation by cos/sin(pi/4)); |sum(rows) - distance| <= 1e-9*scale*(rows+1); scale = largest "
+    "wasserstein: third entries within 1e-9 OF THE COST sqrt(dx^2+dy^2) resp. (d-b)/sqrt2 in the harness' own clause check (np.sqrt of the summed squared coordinate "
+    "differences since /repo fix 6c9bac1, (d-b)/np.sqrt(2) from the coordinate difference since the fix of the diagonal cost — until then the rotation by "
+    "cos/sin(pi/4) needed 1e-9*scale; a diagonal point's row must carry exactly 0), within 1e-9*scale in the Lean checker's maximum deviation; |sum(rows) - distance| <= 1e-9*scale*(rows+1); scale = largest "
     "|coordinate|, not floored at 1",
     "both functions convert their inputs with dtype=float (/repo fixes 82ac8af, dcbfa71): arguments are handed over as float64/float32/"
     "integer arrays (int64..uint8 where the coordinates allow), lists, tuples and Python-int lists; checker and models are dtype-free",
@@ -114,6 +115,14 @@ def gen_dgm(ctx, nmax, mode, other=None):
 
 def gen_pair(ctx, nmax):
     r = ctx.rng
+    if r.random() < 0.04:
+        # diagonal costs far from the origin (C02's class): exact diagonal points and points of tiny persistence at offsets
+        # -5 .. -2^30 .. 2^40 against the empty diagram, themselves, a reordering, other diagonal points — the third entry
+        # of a point-to-diagonal row must be (d - b)/sqrt 2 of THAT point (0 for a diagonal point) to 1e-9 of itself
+        from . import c02
+        pc = c02.gen_diag_pair(ctx, min(nmax, 8))
+        ctx.count("pairs:diagonal_cost_at_offset")
+        return pc["dgm1"], pc["dgm2"], "offset", False
     mode = r.choice(["lattice", "lattice", "half", "dyadic", "dec", "unif", "grey", "dec255"])
     A_ = gen_dgm(ctx, nmax, mode)
     B_ = gen_dgm(ctx, nmax, mode, other=A_)
@@ -332,7 +341,10 @@ def py_clauses(fn, A_, B_, dist, rows, exact, ctol, atol):
         if exact and fn == "bn":
             if Fraction(c) != want:
                 bad.append("row (%d,%d): third entry %r, cost of the pairing %r" % (i, j, c, float(want)))
-        elif abs(c - float(want)) > ctol:
+        elif abs(c - float(want)) > (ctol if fn == "bn" else min(ctol, 1e-9 * abs(float(want)))):
+            # Wasserstein: relative to the COST (both costs come from coordinate differences: np.sqrt of the summed squared
+            # differences, (d - b)/np.sqrt(2) since the /repo fix of the diagonal cost), 0 for a diagonal point or a pair of
+            # equal points; 1e-9 * largest |coordinate| before, which the rotation by pi/4 needed
             bad.append("row (%d,%d): third entry %r, cost of the pairing %r" % (i, j, c, float(want)))
     if rows:
         if fn == "bn":
